@@ -86,6 +86,15 @@ NOT_APPLICABLE = {}
 ALL = ["C%02d" % i for i in range(1, 21)]
 
 
+def hook_commits():
+    import subprocess
+    try:
+        out = subprocess.run(["git", "-C", "/repo", "log", "--format=%H", "--grep=^verif hook"], stdout=subprocess.PIPE).stdout.decode()
+        return [l for l in out.split() if l]
+    except OSError:
+        return []
+
+
 def main():
     checks = []
     for pid in ALL:
@@ -119,7 +128,7 @@ def main():
             "enable": "checks configure their own cmake build of /repo's working tree in /var/tmp/stepcode-verif "
                       "with -DSTEPCODE_VERIF in CMAKE_C_FLAGS/CMAKE_CXX_FLAGS",
             "baseline_off_cmd": "cmake --build /repo/_build -j16 && ctest --test-dir /repo/_build -j8 --timeout 900",
-            "source_commits": [],
+            "source_commits": hook_commits(),
             "add_only": True,
         },
         "engines": [{
